@@ -24,6 +24,8 @@ def run(tier, seed, replay=None):
             ck.mc(DIR, "Search", "MC_search4.cfg", timeout=14400)
         per = 60 if tier == "quick" else 600
         cases = [drv.gen(rng, s) for s in drv.DISCRETE + drv.CONT1 + drv.CONT2 for _ in range(per)]
+        # the two population solvers once more (small populations and short runs are where set-up bookkeeping shows)
+        cases += [drv.gen(rng, s) for s in ("differential_evolution", "particle_swarm") for _ in range(per)]
     res = run_tasks("search", "run_search", cases, timeout=120)
     trs = []
     for r, c in zip(res, cases):
